@@ -486,6 +486,12 @@ func init() {
 	})
 	R("("+secpPkg+".PublicKey).SerializeCompressed", func(it *Interp, _ *ssa.Function, a []Value) Value {
 		e := it.pointEOf(a[0])
+		if ok, _ := it.M.extra["secp.finite"].(bool); ok {
+			// vsupport.AssumeFinitePoints (models_tssde.go): no serialised point is the point at infinity.
+			// The finite branch is taken without recording e != 0 (a non-linear constraint mod n that makes
+			// every later query on the same atoms slow): dropping a conjunct only enlarges the explored set.
+			return it.mkByteSlice(it.serializeCompressed(e))
+		}
 		if it.Branch(it.scIsZero(e)) {
 			// the real code serialises x=0 of the infinity point; nobody can parse it back
 			bs := make([]*smt.Term, 33)
